@@ -131,8 +131,9 @@ def r20_3(ctx):
                 nm = call_name(c)
                 if nm == "add" and fi.name == "do_dele":
                     # after _valid_msg_num with the same variable
-                    t = norm(fi.node, 4000)
-                    if "n = self._valid_msg_num(args)" in t and "if n is None" in t and norm(c.args[0]) == "n":
+                    from .common import pm_of
+                    pdd = pm_of(p, fi)
+                    if pdd.has("n = self._valid_msg_num(args)") and pdd.has("if n is None:\n    ...\n    return True") and norm(c.args[0]) == pdd.name("n"):
                         ctx.ok("R20.3", where(fi), "DELE marks only a validated, not-yet-deleted message number")
                     else:
                         ctx.bad("R20.3", fi.module, fi.qual, norm(c), "DELE marks a number that was not validated", c.lineno)
@@ -151,9 +152,10 @@ def r20_3(ctx):
     else:
         ctx.bad("R20.3", run.module, run.qual, "finally: ...", "the connection clean-up path reaches a mailbox mutator", run.node.lineno)
     # _valid_msg_num bounds
+    from .common import pm_of
     vm = p.func("pop3_client.POP3CommandHandler._valid_msg_num")
-    t = norm(vm.node, 3000)
-    if "if n < 1 or n > self.msg_count" in t and "if n in self.deleted" in t:
+    pvm = pm_of(p, vm)
+    if pvm.has("n = int(num_str)") and pvm.has("if n < 1 or n > self.msg_count:\n    return None") and pvm.has("if n in self.deleted:\n    return None") and pvm.has("return n"):
         ctx.ok("R20.3", where(vm), "message numbers validated against 1..msg_count and the deletion marks")
     else:
         ctx.bad("R20.3", vm.module, vm.qual, "n < 1 or n > self.msg_count / n in self.deleted", "_valid_msg_num no longer bounds the number / excludes deleted messages", vm.node.lineno)
@@ -162,9 +164,10 @@ def r20_3(ctx):
 def r20_5(ctx):
     p = ctx.p
     sh = Shapes(p, typer(p))
+    from .common import pm_of
     ds = p.func("pop3_client.dot_stuff")
-    t = norm(ds.node, 3000)
-    if "lines = data.split(b'\\r\\n')" in t and "if line.startswith(b'.')" in t and "result.append(b'.' + line)" in t and "return b'\\r\\n'.join(result)" in t:
+    pds = pm_of(p, ds)
+    if pds.has("lines = data.split(b'\\r\\n')") and pds.has("for line in lines:\n    if line.startswith(b'.'):\n        result.append(b'.' + line)\n    else:\n        result.append(line)") and pds.has("return b'\\r\\n'.join(result)"):
         ctx.ok("R20.5", where(ds), "dot_stuff: every CRLF-separated line starting with '.' gets one more '.'")
     else:
         ctx.bad("R20.5", ds.module, ds.qual, "dot_stuff body", "dot_stuff no longer doubles the leading dot of each CRLF-separated line", ds.node.lineno)
@@ -172,16 +175,12 @@ def r20_5(ctx):
     ctx.analysed(rt)
     t = norm(rt.node, 8000)
     # size before stuffing
+    prt = pm_of(p, rt)
     lines = {}
-    for s in body_walk(rt.node):
-        if isinstance(s, ast.Assign):
-            tt = norm(s)
-            if tt == "msg_bytes = msg_as_bytes(msg)":
-                lines["render"] = s.lineno
-            if tt == "size = len(msg_bytes)":
-                lines["size"] = s.lineno
-            if tt == "msg_bytes = dot_stuff(msg_bytes)":
-                lines["stuff"] = s.lineno
+    for nm_, pat in (("render", "msg_bytes = msg_as_bytes(msg)"), ("size", "size = len(msg_bytes)"), ("stuff", "msg_bytes = dot_stuff(msg_bytes)")):
+        n_ = prt.find(pat)
+        if n_ is not None:
+            lines[nm_] = n_.lineno
     if set(lines) == {"render", "size", "stuff"} and lines["render"] < lines["size"] < lines["stuff"]:
         ctx.ok("R20.5", where(rt), "RETR: size = len(rendered bytes) taken before dot-stuffing")
     else:
@@ -189,6 +188,8 @@ def r20_5(ctx):
     # terminator shape
     push = [c for c in calls_in(rt.node) if call_name(c) == "push" and "octets" in norm(c)]
     ctx.require(push, "do_retr: reply push not found")
+    if not prt.has("f'+OK {size} octets\\r\\n'.encode('latin-1') + msg_bytes + ..."):
+        ctx.bad("R20.5", rt.module, rt.qual, "+OK {size} octets CRLF + stuffed bytes + terminator", "the RETR reply is no longer '+OK <size> octets' followed by the dot-stuffed message", push[0].lineno)
     a = push[0].args[0]
     tail = None
     if isinstance(a, ast.BinOp) and isinstance(a.right, ast.Constant):
@@ -212,20 +213,22 @@ def r20_5(ctx):
         else:
             ctx.bad("R20.5", fi.module, fi.qual, m, f"{m}: multi-line reply lost its '.CRLF' terminator", fi.node.lineno)
     tp = p.func("pop3_client.POP3CommandHandler.do_top")
-    if "result = dot_stuff(result)" in norm(tp.node, 8000):
+    ptp = pm_of(p, tp)
+    if ptp.has("result = dot_stuff(result)") and ptp.has("await self.client.push(b'+OK\\r\\n' + result + b'\\r\\n.\\r\\n')"):
         ctx.ok("R20.5", where(tp), "TOP content is dot-stuffed")
     else:
         ctx.bad("R20.5", tp.module, tp.qual, "result = dot_stuff(result)", "TOP content is no longer dot-stuffed", tp.node.lineno)
     # STAT/LIST sizes through _get_msg_size -> get_msg_size
     gs = p.func("pop3_client.POP3CommandHandler._get_msg_size")
-    if "self.msg_sizes[pop3_num] = get_msg_size(msg)" in norm(gs.node, 4000):
+    pgs = pm_of(p, gs)
+    if pgs.has("self.msg_sizes[pop3_num] = get_msg_size(msg)") and pgs.has("return self.msg_sizes[pop3_num]"):
         ctx.ok("R20.5", where(gs), "STAT/LIST sizes = get_msg_size(msg) (same renderer as RETR)")
     else:
         ctx.bad("R20.5", gs.module, gs.qual, "get_msg_size(msg)", "STAT/LIST sizes no longer come from the shared renderer", gs.node.lineno)
     # UIDL values = snapshot_uids
     ul = p.func("pop3_client.POP3CommandHandler.do_uidl")
-    tt = norm(ul.node, 6000)
-    if "uid = self.snapshot_uids[n - 1]" in tt and "uid = self.snapshot_uids[num - 1]" in tt:
+    pul = pm_of(p, ul)
+    if pul.has("uid = self.snapshot_uids[n - 1]") and pul.has("await self.client.push(f'+OK {n} {uid}\\r\\n')") and pul.has("for num in range(1, self.msg_count + 1):\n    if num not in self.deleted:\n        uid = self.snapshot_uids[num - 1]\n        lines.append(f'{num} {uid}\\r\\n')"):
         ctx.ok("R20.5", where(ul), "UIDL values are the snapshot's IMAP UIDs")
     else:
         ctx.bad("R20.5", ul.module, ul.qual, "uid = self.snapshot_uids[n - 1]", "UIDL no longer reports the snapshot's IMAP UIDs", ul.node.lineno)
